@@ -4,6 +4,7 @@
 //!        replay --property P --tier T --seed N --seeded K [--shard i/n] --out FILE
 
 mod ctx;
+mod kani_native;
 #[path = "../../cases/mod.rs"]
 mod cases;
 
@@ -41,6 +42,12 @@ fn run_case(case: &cases::Case, model: &HashMap<String, f32>) -> (Vec<Record>, O
 
 fn main() {
     let a: Vec<String> = std::env::args().collect();
+    if a.len() >= 3 && a[1] == "--kani" {
+        std::panic::set_hook(Box::new(|_| {}));
+        let vals: Vec<u64> = a[3..].iter().filter(|x| !x.starts_with("--")).map(|x| x.parse().unwrap()).collect();
+        kani_native::run(&a[2], &vals, a.iter().any(|x| x == "--reject-ok"));
+        return;
+    }
     let (mut property, mut tier, mut seed, mut case_id, mut role, mut model_file) = (String::new(), Tier::Quick, 0u64, String::new(), String::new(), String::new());
     let (mut seeded, mut out, mut shard) = (None::<u64>, None::<String>, (0usize, 1usize));
     let mut search = 0u64;
